@@ -113,6 +113,7 @@ class Variants:
             "vr_flag_from_stored": not probes.get("null_custom_sets_flag", True),
             "vr_ext_order_sorted": bool(probes.get("ext_order_sorted", False)),
             "vr_sock_int": not probes.get("sock_bool", True),
+            "vr_positional_none": bool(probes.get("positional_empty_string", False)),
         }
 
     def coq_variant(self):
